@@ -3,7 +3,8 @@
 //       {explicit SFC_UPDATE_HEADER_NOW at random points | SFC_SET_UPDATE_HEADER_AUTO};
 // crash point = MemVIO snapshot right after each update / after each write call in auto mode;
 // oracle: the snapshot opens on an independent handle, reports the same parameters, frames ==
-//         floor(written / B) * B and reads back exactly that prefix of what the finished file decodes to.
+//         floor(written / B) * B and reads back exactly that prefix of what the finished file decodes to;
+//         the finished file decodes to the same frames as a twin written in one call without any update request.
 #include "vf_writehist.hpp"
 using namespace vf ;
 
@@ -112,6 +113,23 @@ static Result run_case (const Case &c)
 	sf_close (g) ;
 	int B = oracle_block (s.format, s.ch, s.rate, m.data) ;
 	if (B <= 0) return fail ("catalogue_error", "block length not found") ;
+	// "requesting header updates never changes the audio the finished file contains": a twin written in one call, with no
+	// update request, must decode to the same frames
+	{	MemFile tw ; std::vector<long long> one ; if (N > 0) one.push_back (N) ;
+		std::string te = write_partitioned (tw, s, t, src.p, N, one, false, nullptr) ;
+		if (!te.empty ()) return fail ("twin_write_failed", te) ;
+		SF_INFO ti ; MemFile twr ; twr.data = tw.data ; SNDFILE *th = open_read_mem (twr, s, &ti) ;
+		if (!th) return fail ("twin_reopen_failed", sf_strerror (nullptr)) ;
+		std::vector<uint8_t> tref ((size_t) (ti.frames + 1) * s.ch * ts, 0) ;
+		sf_count_t tgot = sf_readf_t (th, t, tref.data (), ti.frames) ;
+		sf_close (th) ;
+		if (ti.frames != FF || tgot != fgot)
+			return fail ("updates_changed_finished_length", "finished file with updates: frames " + std::to_string (FF) + " delivered " + std::to_string ((long long) fgot) + "; without: frames " + std::to_string ((long long) ti.frames) + " delivered " + std::to_string ((long long) tgot)) ;
+		if (fgot > 0 && memcmp (tref.data (), ref.data (), (size_t) fgot * s.ch * ts) != 0)
+		{	size_t i = 0 ; while (i < (size_t) fgot * s.ch && memcmp (tref.data () + i * ts, ref.data () + i * ts, ts) == 0) i ++ ;
+			return fail ("updates_changed_finished_audio", "item " + std::to_string (i) + " with updates " + hex (ref.data () + i * ts, ts) + " without " + hex (tref.data () + i * ts, ts)) ;
+		}
+	}
 	bool nt = false ; int k = 0 ;
 	for (auto &sn : snaps)
 	{	k ++ ;
